@@ -150,6 +150,7 @@ def run(repo, rep, tier):
     manager_id_stored_as_given(repo, rep)
     server_refuses_referenced_delete(repo, rep)
     context_exit_always_cleans_up(repo, rep)
+    ownership_lists_are_not_handed_out(repo, rep)
 
     # ---- R1 ---------------------------------------------------------------
     sites = pattern_sites(repo, SM)
@@ -1011,6 +1012,74 @@ def values_compared_exactly(repo, rep):
     probe = ast.parse("a.value.lower() == b.lower()").body[0].value
     if not folded_value_operands(probe):
         raise AnalysisError('C18.R10 recogniser broken')
+
+
+def ownership_lists_are_not_handed_out(repo, rep):
+    """C18.R14: what the manager owns is recorded in private containers
+    (`_owned_filters`, `_owned_destinations`, `_owned_subscriptions`, ...
+    dictionaries of lists set up in __init__).  A public method that
+    returns one of these lists itself - not a copy - lets the caller change
+    the ownership record without any server interaction: an appended
+    permanent instance is deleted by remove_server(), a removed element is
+    leaked, and `for d in mgr.get_owned_destinations(sid):
+    mgr.remove_destinations(sid, d.path)` skips every second entry because
+    the list shrinks under the loop.  So no public method returns a private
+    container or an item of one uncopied."""
+    from ..flow import value_of
+    r14 = rep.rule('C18.R14', 'public methods return copies of the '
+                   'ownership lists, never the lists themselves')
+    mgr = repo.cls(SM, 'WBEMSubscriptionManager')
+    init = mgr.methods.get('__init__')
+    if init is None:
+        raise AnalysisError('WBEMSubscriptionManager.__init__ vanished')
+    priv = set()
+    for a in walk_no_nested(init.node):
+        if isinstance(a, ast.Assign) and len(a.targets) == 1 and \
+                isinstance(a.targets[0], ast.Attribute) and \
+                isinstance(a.targets[0].value, ast.Name) and \
+                a.targets[0].value.id == 'self' and \
+                a.targets[0].attr.startswith('_') and \
+                (isinstance(a.value, (ast.Dict, ast.List)) or
+                 (isinstance(a.value, ast.Call) and
+                  dotted(a.value.func) in ('dict', 'list', 'OrderedDict',
+                                           'NocaseDict'))):
+            priv.add(a.targets[0].attr)
+    if len(priv) < 3:
+        raise AnalysisError('C18.R14: private containers of the manager not '
+                            'found (%s)' % sorted(priv))
+    n = 0
+    for name, f in sorted(mgr.methods.items()):
+        if name.startswith('_'):
+            continue
+        for st in walk_no_nested(f.node):
+            if not (isinstance(st, ast.Return) and st.value is not None):
+                continue
+            v = value_of(f, st.value)
+            base = v
+            while isinstance(base, ast.Subscript):
+                base = base.value
+            if not (isinstance(base, ast.Attribute) and
+                    isinstance(base.value, ast.Name) and
+                    base.value.id == 'self' and base.attr in priv):
+                n += 1
+                continue
+            n += 1
+            r14.sites += 1
+            r14.functions.add(f.fq)
+            r14.ob(False, '%s|%s' % (f.qualname, norm(st, 60)))
+            rep.finding(r14, f.qualname, norm(st, 70), 'internal-list-returned',
+                        SM, st.lineno,
+                        '%s hands out the manager\'s own record self.%s (or '
+                        'an entry of it) instead of a copy: a caller that '
+                        'edits or iterates-while-removing "its" list changes '
+                        'what the manager believes it owns'
+                        % (name, base.attr))
+    r14.sites += 1
+    r14.ob(n >= 5, 'returns-scanned', {'returns': n,
+                                       'private_containers': sorted(priv)})
+    if n < 5:
+        raise AnalysisError('C18.R14: only %d return statements of public '
+                            'methods scanned' % n)
 
 
 def context_exit_always_cleans_up(repo, rep):
